@@ -156,13 +156,14 @@ Section Leaves.
   Lemma leaf_dec_ok nillable k j j' r :
     (match k with KText => true | _ => false end)
     && negb (match j with JStr _ | JBytes _ => true | _ => false end) = false ->
+    source_ok k j = true ->
     text_of_bytes k j = Ok j' ->
     (match j' with JStr s => negb (validate_string k s) | _ => false end) = false ->
     leaf_conv c k j' = Ok r -> validate_native nillable k r = Ok true ->
     leaf_dec c nillable k j = Ok r.
   Proof.
-    intros C1 Ht C2 Hc Hv. unfold leaf_dec.
-    rewrite <- andb_assoc, C1, andb_false_r, Ht. cbn [bind].
+    intros C1 Hs Ht C2 Hc Hv. unfold leaf_dec.
+    rewrite <- andb_assoc, C1, andb_false_r, Hs, Ht. cbn [negb bind].
     rewrite C2, andb_false_r, Hc. cbn [bind]. rewrite Hv. destruct (c_soft c); reflexivity.
   Qed.
 
@@ -180,6 +181,12 @@ Section Leaves.
   Lemma stext_is_text st t :
     (match stext c st t with JStr _ | JBytes _ => true | _ => false end) = true.
   Proof. unfold stext. destruct (msgpack c && st_text_bin st); reflexivity. Qed.
+
+  Lemma source_ok_text k j :
+    (match j with JStr _ | JBytes _ => true | _ => false end) = true -> source_ok k j = true.
+  Proof.
+    destruct j; try discriminate; intros _; destruct k; cbn [source_ok]; rewrite ?orb_true_r; reflexivity.
+  Qed.
 
   Lemma ascii_bytes_dec t : all_ascii t = true -> utf8_dec (utf8_bytes t) = Some t.
   Proof. intros H. rewrite (utf8_bytes_ascii t H). apply utf8_dec_ascii, H. Qed.
@@ -206,16 +213,17 @@ Section Leaves.
     - (* Integer *)
       destruct (is_msgpack c) eqn:Hm; cbn [andb] in *.
       + destruct (in64 z) eqn:Hi; cbn [negb] in *.
-        * eapply leaf_dec_ok; [reflexivity|reflexivity|reflexivity| |apply validate_int].
+        * eapply leaf_dec_ok; [reflexivity|reflexivity|reflexivity|reflexivity| |apply validate_int].
           unfold leaf_conv. rewrite Hm. reflexivity.
         * eapply leaf_dec_ok;
             [reflexivity
+            |apply source_ok_text, stext_is_text
             |apply tob_stext; [reflexivity|apply ascii_bytes_dec, all_ascii_str_int]
             | | |apply validate_int].
           -- cbn [validate_string]. rewrite H. reflexivity.
           -- unfold leaf_conv. rewrite Hm. unfold integer_from_text. rewrite H. cbn [negb].
              rewrite int_of_text_str_int. reflexivity.
-      + eapply leaf_dec_ok; [reflexivity|reflexivity|reflexivity| |apply validate_int].
+      + eapply leaf_dec_ok; [reflexivity|reflexivity|reflexivity|reflexivity| |apply validate_int].
         unfold leaf_conv. rewrite Hm. unfold ret_number.
         destruct (in_true_false (JInt z)) as [z'|] eqn:E; [|reflexivity].
         cbn [in_true_false] in E. destruct ((z =? 0) || (z =? 1)); [|discriminate].
@@ -223,10 +231,11 @@ Section Leaves.
     - (* Unicode *)
       eapply leaf_dec_ok;
         [rewrite stext_is_text; reflexivity
+        |apply source_ok_text, stext_is_text
         |apply tob_stext; [reflexivity|apply utf8_bytes_dec, H]
         |reflexivity|reflexivity|apply validate_leaf; reflexivity].
     - (* Boolean *)
-      eapply leaf_dec_ok; [reflexivity|reflexivity|reflexivity|reflexivity|apply validate_leaf; reflexivity].
+      eapply leaf_dec_ok; [reflexivity|reflexivity|reflexivity|reflexivity|reflexivity|apply validate_leaf; reflexivity].
     - (* Double *)
       apply andb_true_iff in H as [_ Hf].
       assert (Hv : validate_native nillable KDouble (DLeaf (lnorm (LDouble bits))) = Ok true).
@@ -234,19 +243,20 @@ Section Leaves.
       cbn [lnorm] in Hv.
       destruct (is_msgpack c && st_dbl_int st).
       + destruct (in_true_false (JFlt bits)) as [z|] eqn:E.
-        * eapply leaf_dec_ok; [reflexivity|reflexivity|reflexivity| |exact Hv].
+        * eapply leaf_dec_ok; [reflexivity|reflexivity|reflexivity|reflexivity| |exact Hv].
           unfold leaf_conv, ret_number. rewrite (in_tf_int z (in_tf_range _ _ E)). reflexivity.
-        * eapply leaf_dec_ok; [reflexivity|reflexivity|reflexivity| |exact Hv].
+        * eapply leaf_dec_ok; [reflexivity|reflexivity|reflexivity|reflexivity| |exact Hv].
           unfold leaf_conv, ret_number. rewrite E. reflexivity.
       + destruct (in_true_false (JFlt bits)) as [z|] eqn:E.
-        * eapply leaf_dec_ok; [reflexivity|reflexivity|reflexivity| |exact Hv].
+        * eapply leaf_dec_ok; [reflexivity|reflexivity|reflexivity|reflexivity| |exact Hv].
           unfold leaf_conv, ret_number. rewrite E. reflexivity.
-        * eapply leaf_dec_ok; [reflexivity|reflexivity|reflexivity| |exact Hv].
+        * eapply leaf_dec_ok; [reflexivity|reflexivity|reflexivity|reflexivity| |exact Hv].
           unfold leaf_conv, ret_number. rewrite E. reflexivity.
     - (* Decimal *)
       apply andb_true_iff in H as [Hc Hl].
       eapply leaf_dec_ok;
         [reflexivity
+        |apply source_ok_text, stext_is_text
         |apply tob_stext; [reflexivity|apply ascii_bytes_dec, all_ascii_dec_str; lia]
         | | |apply validate_leaf; reflexivity].
       + cbn [validate_string]. rewrite Hl. reflexivity.
@@ -254,9 +264,9 @@ Section Leaves.
         rewrite (dec_roundtrip d ltac:(lia)). reflexivity.
     - (* ByteArray *)
       destruct (is_msgpack c) eqn:Hm.
-      + eapply leaf_dec_ok; [reflexivity|reflexivity|reflexivity| |apply validate_leaf; reflexivity].
+      + eapply leaf_dec_ok; [reflexivity|reflexivity|reflexivity|reflexivity| |apply validate_leaf; reflexivity].
         unfold leaf_conv. rewrite Hm. reflexivity.
-      + eapply leaf_dec_ok; [reflexivity|reflexivity|reflexivity| |apply validate_leaf; reflexivity].
+      + eapply leaf_dec_ok; [reflexivity|reflexivity|reflexivity|reflexivity| |apply validate_leaf; reflexivity].
         unfold leaf_conv. rewrite Hm.
         rewrite (all_ascii_b64 b (forallb_bytes b H)).
         rewrite (b64_roundtrip false b (forallb_bytes b H)). reflexivity.
@@ -268,7 +278,7 @@ Section Leaves.
     intros H. unfold leaf_dec. cbn [jv_is_null andb].
     assert (E : c_soft c && negb nillable = false) by (destruct H as [->| ->]; [apply andb_false_r|reflexivity]).
     replace (c_soft c && negb (true && nillable)) with false by (cbn [andb]; symmetry; exact E).
-    cbn [andb].
+    cbn [andb source_ok negb].
     assert (Ht : text_of_bytes k JNull = Ok JNull) by (destruct k; reflexivity).
     rewrite Ht. cbn [bind]. rewrite andb_false_r.
     assert (Hc : leaf_conv c k JNull = Ok DNone) by (destruct k; reflexivity).
